@@ -144,6 +144,28 @@ def check_props(pid, timeout=900):
     }
 
 
+def coqchk(pid, timeout=1500):
+    """Independent re-check (coqchk -o) of the compiled Props.vo of the property and of everything it
+    depends on; returns the CONTEXT SUMMARY (axioms, type-in-type, unsafe fixpoints, assumed positivity)."""
+    t0 = time.time()
+    r = subprocess.run(['timeout', str(timeout), 'coqchk', '-silent', '-o', '-Q', 'theories', 'PV',
+                        'PV.%s.Props' % pid], cwd=COQ, stdout=subprocess.PIPE, stderr=subprocess.STDOUT,
+                       text=True)
+    out = r.stdout
+    m = re.search(r'CONTEXT SUMMARY\s*=+\s*(.*)', out, re.S)
+    summary = {}
+    if m:
+        for key, val in re.findall(r'\*\s*([^:\n]+):\s*(.*?)(?=\n\s*\*|\Z)', m.group(1), re.S):
+            summary[key.strip()] = ' '.join(val.split())
+    clean = (r.returncode == 0 and bool(m)
+             and all(summary.get(k, '') == '<none>' for k in summary if k.startswith('Constants') or k.startswith('Inductives')))
+    axioms = summary.get('Axioms', '?')
+    names = [] if axioms == '<none>' else re.findall(r'[\w.\']+', axioms)
+    bad = [n for n in names if n.split('.')[-1] not in STDLIB_AXIOMS]
+    return {'ok': clean and not bad, 'returncode': r.returncode, 'axioms': axioms, 'summary': summary,
+            'wall_s': round(time.time() - t0, 1), 'log': '' if r.returncode == 0 else out[-2000:]}
+
+
 PAIR = re.compile(r'\(\s*(-?\d+)(?:%Z)?\s*,\s*(-?\d+)(?:%Z)?\s*\)')
 
 
